@@ -1205,6 +1205,71 @@ theorem equi_writeNewLine : Equi writeNewLine := by
   · simp [writeSep, shift, Nat.add_assoc]
   · rfl
 
+/-! ### SCPI_ResultError (reached through the library's SYSTem:ERRor[:NEXT]? handler) -/
+
+theorem writeData_shift (o : Out) (d : Bytes) (w : Bytes) (p : List Int) (k : Nat) :
+    writeData (shift o w p k) d = shift (writeData o d) w p k := equi_writeData d o w p k
+
+theorem errPartLoop_shift : ∀ (fuel : Nat) (o : Out) (d : Bytes) (len lim : Nat) (w : Bytes) (p : List Int) (k : Nat),
+    errPartLoop fuel (shift o w p k) d len lim =
+      (shift (errPartLoop fuel o d len lim).1 w p k, (errPartLoop fuel o d len lim).2) := by
+  intro fuel
+  induction fuel with
+  | zero => intro o d len lim w p k; rfl
+  | succ fuel ih =>
+    intro o d len lim w p k
+    unfold errPartLoop
+    cases quotePos d len with
+    | none => rfl
+    | some q =>
+      dsimp only
+      split
+      · rfl
+      · rw [writeData_shift, writeData_shift]
+        exact ih _ _ _ _ w p k
+
+theorem errParts_shift : ∀ (ps : List (Option Bytes)) (i : Nat) (o : Out) (lim : Nat) (w : Bytes) (p : List Int) (k : Nat),
+    errParts i ps (shift o w p k) lim = shift (errParts i ps o lim) w p k := by
+  intro ps
+  induction ps with
+  | nil => intro i o lim w p k; rfl
+  | cons x ps ih =>
+    intro i o lim w p k
+    unfold errParts
+    cases x with
+    | none => rfl
+    | some d =>
+      dsimp only
+      split
+      · rfl
+      · have hsemi : (if (shift o w p k).outputCount > 0 then writeData (shift o w p k) [59] else shift o w p k) =
+            shift (if o.outputCount > 0 then writeData o [59] else o) w p k := by
+          have hc : (shift o w p k).outputCount = o.outputCount := rfl
+          rw [hc]
+          split
+          · exact writeData_shift _ _ _ _ _
+          · rfl
+        by_cases hi : (i == 1) = true
+        · simp only [hi, if_true, hsemi]
+          rw [errPartLoop_shift]
+          dsimp only
+          rw [writeData_shift]
+          exact ih _ _ _ w p k
+        · simp only [hi, if_false, Bool.false_eq_true]
+          rw [errPartLoop_shift]
+          dsimp only
+          rw [writeData_shift]
+          exact ih _ _ _ w p k
+
+theorem equi_resultError (code : Int) (desc : Bytes) (parts : List (Option Bytes)) :
+    Equi (fun o => resultError o code desc parts) := by
+  intro o w p k
+  have hi := equi_resultIntBaseSign 32 (if code < 0 then (2^32 - code.natAbs) else code.toNat) 10 true o w p k
+  have hd := fun o => equi_writeDelimiter o w p k
+  dsimp only at hi hd
+  simp only [resultError, hi, hd, writeData_shift, errParts_shift]
+  rfl
+
 /-- equal up to the logs -/
 def OutSim (o1 o2 : Out) : Prop := obase o1 = obase o2
 
@@ -1774,6 +1839,145 @@ theorem out_err_sim {P : Nat} {h1 h2 : HState} (hh : HS P h1 h2) {f : Out → Ou
   · exact ⟨⟨pushError_sim hs (-310) none 0, hh.stopOnFail, hh.result, hh.done⟩, hst.trans (pushError_step hs.w (-310) none 0)⟩
   · exact ⟨⟨hs, hh.stopOnFail, hh.result, hh.done⟩, hst⟩
 
+/-! ## the library's own handlers (Model/Ctx.lean `runBuiltin`) -/
+
+theorem sameRegs_regClearBits (s1 s2 : Regs.St) (h : SameRegs s1 s2) (n : Nat) (v : Regs.Reg) :
+    SameRegs (Regs.regClearBits s1 n v) (Regs.regClearBits s2 n v) := by
+  unfold Regs.regClearBits
+  rw [sameRegs_get s1 s2 h n]
+  exact sameRegs_regSet _ _ h _ _
+
+theorem sameRegs_emitEmpty (s1 s2 : Regs.St) (h : SameRegs s1 s2) :
+    SameRegs (Regs.emitEmpty s1) (Regs.emitEmpty s2) := by
+  unfold Regs.emitEmpty
+  rw [h.2.1, sameRegs_get s1 s2 h Regs.STB]
+  exact sameRegs_ite _ _ _ _ _ (fun _ => sameRegs_mk _ _ (sameRegs_regClearBits _ _ h _ _) _ _ _ _) (fun _ => h)
+
+theorem sameRegs_step (s1 s2 : Regs.St) (h : SameRegs s1 s2) (op : Regs.Op) :
+    SameRegs (Regs.step s1 op) (Regs.step s2 op) := by
+  cases op with
+  | set n v => exact sameRegs_regSet _ _ h _ _
+  | setBits n v => exact sameRegs_regSetBits _ _ h _ _
+  | clearBits n v => exact sameRegs_regClearBits _ _ h _ _
+  | errPush c => exact errPush_sameRegs _ _ h c
+  | errPop =>
+    exact sameRegs_emitEmpty _ _ ⟨h.1, by show s1.qn - 1 = s2.qn - 1; rw [h.2.1], h.2.2⟩
+  | errClear => exact sameRegs_emitEmpty _ _ ⟨h.1, rfl, h.2.2⟩
+  | cls =>
+    show SameRegs (Regs.cls s1) (Regs.cls s2)
+    unfold Regs.cls
+    apply sameRegs_foldl
+    · intro t1 t2 i ht
+      exact sameRegs_ite _ _ _ _ _ (fun _ => sameRegs_regSet _ _ ht _ _) (fun _ => ht)
+    · exact sameRegs_emitEmpty _ _ ⟨h.1, rfl, h.2.2⟩
+  | esrQ => exact sameRegs_regSet _ _ h _ _
+  | operQ => exact sameRegs_regSet _ _ h _ _
+  | quesQ => exact sameRegs_regSet _ _ h _ _
+  | preset => exact sameRegs_regSet _ _ h _ _
+
+/-- every queue operation: same observation, related queues -/
+theorem sameQueue_step (q1 q2 : Fifo.EQ) (h : SameQueue q1 q2) (w : Bool) (op : Fifo.Op) :
+    (Fifo.EQ.step w q1 op).2 = (Fifo.EQ.step w q2 op).2 ∧
+    SameQueue (Fifo.EQ.step w q1 op).1 (Fifo.EQ.step w q2 op).1 := by
+  obtain ⟨hi1, hi2, hsz, habs⟩ := h
+  obtain ⟨o1, j1, s1, a1⟩ := Lemmas.Fifo.step_refines q1.fifo.size w q1 (Fifo.EQ.abs q1) op ⟨hi1, rfl, rfl⟩
+  obtain ⟨o2, j2, s2, a2⟩ := Lemmas.Fifo.step_refines q1.fifo.size w q2 (Fifo.EQ.abs q1) op ⟨hi2, hsz.symm, habs.symm⟩
+  exact ⟨o1.trans o2.symm, j1, j2, s1.trans s2.symm, a1.trans a2.symm⟩
+
+theorem sameRegs_bRegs (r1 r2 : Regs.St) (h : SameRegs r1 r2) (b : Builtin) :
+    SameRegs (Lemmas.Builtin.bRegs r1 b) (Lemmas.Builtin.bRegs r2 b) := by
+  unfold Lemmas.Builtin.bRegs
+  cases Lemmas.Builtin.regOp b with
+  | none => exact h
+  | some op => exact sameRegs_step _ _ h op
+
+theorem sameQueue_bEq (q1 q2 : Fifo.EQ) (h : SameQueue q1 q2) (b : Builtin) :
+    SameQueue (Lemmas.Builtin.bEq q1 b) (Lemmas.Builtin.bEq q2 b) := by
+  cases b
+  case cls => exact (sameQueue_step q1 q2 h true .clear).2
+  case errNextQ => exact (sameQueue_step q1 q2 h true .sysErr).2
+  all_goals exact h
+
+theorem emptyFires_congr (s1 s2 : Regs.St) (h : SameRegs s1 s2) :
+    Lemmas.Builtin.emptyFires s1 = Lemmas.Builtin.emptyFires s2 := by
+  unfold Lemmas.Builtin.emptyFires
+  rw [h.2.1, sameRegs_get s1 s2 h Regs.STB]
+
+theorem bEvs_congr (r1 r2 : Regs.St) (h : SameRegs r1 r2) (b : Builtin) :
+    Lemmas.Builtin.bEvs r2 b = Lemmas.Builtin.bEvs r1 b := by
+  cases b
+  case cls =>
+    simp only [Lemmas.Builtin.bEvs, Lemmas.Builtin.fired_cls]
+    rw [emptyFires_congr _ _ (show SameRegs { r1 with qn := 0 } { r2 with qn := 0 } from ⟨h.1, rfl, h.2.2⟩)]
+  case errNextQ =>
+    simp only [Lemmas.Builtin.bEvs, Lemmas.Builtin.fired_errPop]
+    rw [emptyFires_congr _ _ (show SameRegs { r1 with qn := r1.qn - 1 } { r2 with qn := r2.qn - 1 } from
+      ⟨h.1, by show r1.qn - 1 = r2.qn - 1; rw [h.2.1], h.2.2⟩)]
+  all_goals rfl
+
+theorem bOut_congr (r1 r2 : Regs.St) (q1 q2 : Fifo.EQ) (hr : SameRegs r1 r2) (hq : SameQueue q1 q2) (b : Builtin) :
+    Lemmas.Builtin.bOut r2 q2 b = Lemmas.Builtin.bOut r1 q1 b := by
+  cases b
+  case errNextQ =>
+    have h := (sameQueue_step q1 q2 hq true .sysErr).1
+    simp only [Fifo.EQ.step] at h
+    obtain ⟨hc, ht⟩ := Fifo.Obs.popped.inj h
+    simp only [Lemmas.Builtin.bOut, hc, ht]
+  case errCountQ =>
+    have h := (sameQueue_step q1 q2 hq true .count).1
+    simp only [Fifo.EQ.step] at h
+    simp only [Lemmas.Builtin.bOut, Fifo.Obs.counted.inj h]
+  all_goals first
+    | rfl
+    | (funext o; simp only [Lemmas.Builtin.bOut, Lemmas.Builtin.outReg, sameRegs_get r1 r2 hr])
+
+theorem equi_bOut (r : Regs.St) (q : Fifo.EQ) (b : Builtin) : Equi (Lemmas.Builtin.bOut r q b) := by
+  cases b
+  case idnQ fields =>
+    exact equi_foldl (fun o i => resultCharacters o (idnField fields i)) (fun i => equi_resultCharacters _) _
+  case errNextQ => exact equi_resultError _ _ _
+  case versQ => exact equi_resultCharacters _
+  case eseQ | esrQ | opcQ | sreQ | stbQ | tstQ | stubQ | errCountQ | quesCondQ | quesEvenQ | quesEnabQ
+      | operCondQ | operEvenQ | operEnabQ => exact equi_resultIntBaseSign _ _ _ _
+  all_goals exact Equi.id
+
+theorem Sim.regStep {P : Nat} {c1 c2 : Ctx} (h : Sim P c1 c2) (op : Regs.Op) : Sim P (regStep c1 op) (regStep c2 op) :=
+  ⟨⟨h.w.cmds, h.w.choices, h.w.withInfo, h.w.bufLen, h.w.position, h.w.buf, h.w.inb, h.w.blen, h.w.pos,
+     sameRegs_step _ _ h.w.regs op, h.w.eq⟩,
+   ⟨h.l.cmdError, h.l.inputCount, h.l.pbase, h.l.plen, h.l.ppos, h.l.cur, h.l.rawOff, h.l.rawLen, h.l.out, h.l.win, h.l.raw⟩⟩
+
+theorem runBuiltin_sim {P : Nat} {c1 c2 : Ctx} (h : Sim P c1 c2) (b : Builtin) :
+    RR P c1 c2 (runBuiltin c1 b) (runBuiltin c2 b) := by
+  cases hp : Lemmas.Builtin.paramReg b with
+  | none =>
+    rw [Lemmas.Builtin.runBuiltin_pure c1 b hp, Lemmas.Builtin.runBuiltin_pure c2 b hp,
+      bOut_congr c1.regs c2.regs c1.eq c2.eq h.w.regs h.w.eq b, bEvs_congr c1.regs c2.regs h.w.regs b]
+    have hos := (equi_bOut c1.regs c1.eq b).step h.l.out
+    refine ⟨⟨⟨h.w.cmds, h.w.choices, h.w.withInfo, h.w.bufLen, h.w.position, h.w.buf, h.w.inb, h.w.blen, h.w.pos,
+        sameRegs_bRegs _ _ h.w.regs b, sameQueue_bEq _ _ h.w.eq b⟩,
+      ⟨h.l.cmdError, h.l.inputCount, h.l.pbase, h.l.plen, h.l.ppos, h.l.cur, h.l.rawOff, h.l.rawLen, hos.sim, h.l.win, h.l.raw⟩⟩,
+      ?_, rfl⟩
+    obtain ⟨w, p, k, a, b', _, _, e, f⟩ := hos.ext
+    exact ⟨Lemmas.Builtin.bEvs c1.regs b, w, k, ⟨rfl, a, e⟩, ⟨rfl, b', f⟩⟩
+  | some pr =>
+    obtain ⟨reg, strict⟩ := pr
+    rw [Lemmas.Builtin.runBuiltin_param c1 b reg strict hp, Lemmas.Builtin.runBuiltin_param c2 b reg strict hp,
+      Lemmas.Builtin.regFromParam_eq, Lemmas.Builtin.regFromParam_eq]
+    have hpi := paramInt_sim h 32 true true
+    generalize paramInt c1 32 true true = x1 at hpi
+    generalize paramInt c2 32 true true = x2 at hpi
+    obtain ⟨d1, ok1, v1⟩ := x1
+    obtain ⟨d2, ok2, v2⟩ := x2
+    obtain ⟨hs, hst, hv⟩ := hpi
+    simp only [Prod.mk.injEq] at hv
+    obtain ⟨hv1, hv2⟩ := hv
+    subst hv1
+    subst hv2
+    dsimp only at hs hst ⊢
+    cases ok1
+    · exact ⟨hs, hst, rfl⟩
+    · exact ⟨hs.regStep _, hst.trans (Step.of_eq rfl rfl rfl rfl), rfl⟩
+
 theorem runOp_sim {P : Nat} {h1 h2 : HState} (hh : HS P h1 h2) (op : SOp) :
     HR P h1 h2 (runOp h1 op) (runOp h2 op) := by
   unfold runOp
@@ -1822,6 +2026,12 @@ theorem runOp_sim {P : Nat} {h1 h2 : HState} (hh : HS P h1 h2) (op : SOp) :
       · exact ⟨hh, Step.refl _ _⟩
     case onFail s => exact ⟨⟨hh.sim, rfl, hh.result, hh.done⟩, Step.refl _ _⟩
     case ret ok => exact ⟨⟨hh.sim, hh.stopOnFail, rfl, rfl⟩, Step.refl _ _⟩
+    case builtin b =>
+      obtain ⟨hs, hst, hv⟩ := runBuiltin_sim hh.sim b
+      rw [← hv]
+      split
+      · exact ⟨⟨hs, hh.stopOnFail, hh.result, hh.done⟩, hst⟩
+      · exact ⟨⟨hs, hh.stopOnFail, rfl, rfl⟩, hst⟩
 
 theorem foldl_runOp_sim {P : Nat} (s : List SOp) : ∀ {h1 h2 : HState}, HS P h1 h2 →
     HR P h1 h2 (s.foldl runOp h1) (s.foldl runOp h2) := by
